@@ -74,10 +74,10 @@ def reproduced(p, q, model, canonical, what):
         return f"{what}: coefficient dtype {q.dtype}, original {p.dtype}"
     if tuple(q.names) != tuple(p.names):
         return f"{what}: names {tuple(q.names)}, original {tuple(p.names)}"
-    r = wf(q, what)
+    r = wf(q, what) if wf(p) is None else None      # well-formedness of the original itself is C03's business
     if r:
         return r
-    got = from_ndpoly(q)
+    got = from_ndpoly(q) if q.size else numpy.empty(q.shape, dtype=object)      # an empty array has no elements to read
     if not same(got, model):
         return f"{what}: denotes {describe(got)}, expected {describe(model)}"
     if canonical:
